@@ -40,6 +40,11 @@ pub enum Fault {
     BitFlip { pos: usize, bit: u8 },
     /// prefix of this document, suffix of a valid document of another precision
     Torn { cut: usize, other_b: usize, other_cut: usize },
+    /// `b` replaced by this JSON text *and* registers resized to `len` (e.g. b = 2^32 + 4 with 16
+    /// registers: consistent after truncation to a narrower integer)
+    BTextWithLen { b_text: String, len: usize },
+    /// the positional form `[registers, b, buildhasher]` with registers resized to `len`
+    SeqDoc { b_text: String, len: usize },
 }
 
 #[derive(Clone, Debug, Serialize, Deserialize)]
@@ -85,6 +90,20 @@ pub fn catalogue(b: usize, m: usize) -> Vec<Fault> {
     // consistent but out of range: b outside 4..=18 together with exactly 2^b registers
     for ob in [0usize, 1, 2, 3, 19] {
         f.push(Fault::RegsForOtherB { other_b: ob, set_b: true });
+    }
+    // values that become a legal precision when truncated to 8 / 16 / 32 / 48 / 63 bits, with the
+    // registers length that matches the truncated value
+    for k in [8u32, 16, 32, 48, 63] {
+        for j in [4u64, 5, 18] {
+            if j == 18 && k != 32 {
+                continue;
+            }
+            f.push(Fault::BTextWithLen { b_text: ((1u128 << k) + j as u128).to_string(), len: 1usize << j });
+        }
+    }
+    // the positional (sequence) form of the struct
+    for (bt, len) in [(b.to_string(), m), ("4".to_string(), 0), ("4".to_string(), 15), ("3".to_string(), 8), ("64".to_string(), 16), ("0".to_string(), 1), ("19".to_string(), 16), (b.to_string(), m + 1)] {
+        f.push(Fault::SeqDoc { b_text: bt, len });
     }
     for t in ["null", "{}", "\"abc\"", "[256]", "[-1]", "[\"x\"]", "[1.5]", "[]", "0", "[[0]]"] {
         f.push(Fault::RegsText(t.into()));
@@ -181,6 +200,16 @@ pub fn corrupt(base: &Hll, valid: &[u8], fault: &Fault, other_valid: &dyn Fn(usi
         Fault::Unknown => build_doc(&rj, &bj, &hj, &std, "\"extra\":1"),
         Fault::Reorder(p) => build_doc(&rj, &bj, &hj, p, ""),
         Fault::TopLevel(t) => t.clone(),
+        Fault::BTextWithLen { b_text, len } => {
+            let mut r: Vec<u8> = regs.iter().cloned().take(*len).collect();
+            r.resize(*len, 0);
+            build_doc(&regs_to_json(&r), b_text, &hj, &std, "")
+        }
+        Fault::SeqDoc { b_text, len } => {
+            let mut r: Vec<u8> = regs.iter().cloned().take(*len).collect();
+            r.resize(*len, 0);
+            format!("[{},{},{}]", regs_to_json(&r), b_text, hj)
+        }
         Fault::Truncate(n) => return valid[..(*n).min(valid.len())].to_vec(),
         Fault::BitFlip { pos, bit } => {
             let mut bytes = valid.to_vec();
@@ -206,7 +235,8 @@ fn fault_kind(f: &Fault) -> &'static str {
     match f {
         Fault::None => "none",
         Fault::BText(_) => "store_field_range",
-        Fault::RegsLen(_) | Fault::RegsForOtherB { .. } => "store_field_range",
+        Fault::RegsLen(_) | Fault::RegsForOtherB { .. } | Fault::BTextWithLen { .. } => "store_field_range",
+        Fault::SeqDoc { .. } => "store_field_retype",
         Fault::RegsText(_) | Fault::RegValue { .. } | Fault::HasherText(_) => "store_field_retype",
         Fault::Drop(_) => "store_field_drop",
         Fault::Dup(..) => "store_field_dup",
@@ -220,7 +250,8 @@ fn fault_kind(f: &Fault) -> &'static str {
 fn fault_class(f: &Fault) -> &'static str {
     match f {
         Fault::None => "round-trip",
-        Fault::BText(_) => "b-corrupted",
+        Fault::BText(_) | Fault::BTextWithLen { .. } => "b-corrupted",
+        Fault::SeqDoc { .. } => "positional-form",
         Fault::RegsLen(_) | Fault::RegsForOtherB { .. } | Fault::RegsText(_) => "registers-corrupted",
         Fault::RegValue { .. } => "register-value-corrupted",
         Fault::HasherText(_) => "hasher-corrupted",
